@@ -39,3 +39,8 @@ Theorem C19_ttl_range_check_tied p : go_runOnce_ttl_range_rejected (rp_min p) (r
 Proof. exact (@go_ttl_range_check p). Qed.
 Print Assumptions C19_ttl_range_check_tied.
 
+(** tie kind A: the destination port RunTraceroute hands to every run (the default when 0, with common.DefaultPort inlined from its declaration) is the model's [dest_port] *)
+Theorem C19_destination_port_tied p : go_destination_port (rp_port p) = dest_port p.
+Proof. exact (@go_destination_port_is_model p). Qed.
+Print Assumptions C19_destination_port_tied.
+
